@@ -54,3 +54,12 @@ def wsum_ext(ctx):
         out.append((f"base[s={s_}]", ax, f2(0 + s_) == f1(0), "k = 0"))
         out.append((f"step[s={s_}]", ax + [0 <= b, b < n, f2(b + s_) == f1(b)], f2(b + 1 + s_) == f1(b + 1), "k -> k+1"))
     return out
+
+
+@lemma("tdiv_frac", ["C01", "C03", "C09", "C10"])
+def tdiv_frac(ctx):
+    """truncation of equal fractions: a*d == c*b, b > 0, d > 0, a, c >= 0  ==>  trunc(a/b) == trunc(c/d).
+    Proved on the defining property of the truncated quotient q = trunc(x/y) for x >= 0 < y:  y*q <= x < y*(q+1)."""
+    a, b, c, d, p, q = z3.Ints("a b c d p q")
+    hyp = [a >= 0, c >= 0, b > 0, d > 0, a * d == c * b, b * p <= a, a < b * (p + 1), d * q <= c, c < d * (q + 1)]
+    return [("equal_quotients", hyp, p == q, "the truncated quotients of equal non-negative fractions coincide")]
